@@ -27,6 +27,18 @@ CLAIMS = {
         "note": "Assume/guarantee: opaque callables (child operators, user proxes) do not mutate arguments, which this rule establishes class by class. "
                 "numpy view/copy semantics are a table (VIEW_*/copy lists in effects.py). GPU arms pruned. Bit-level determinism of numpy not decided.",
     },
+    "C03": {
+        "engine": "E4 symbolic Linop algebra, E3 value numbering with loop unrolling, E6 paths, raw-axes typestate",
+        "category": "other",
+        "technique": "static analysis: symbolic evaluation of the operator overloads; value numbering of Compose/Add/Hstack/Vstack/Diag._apply and of the stacking helpers unrolled over three symbolic operands, compared with the block-matrix reference; must-pass-through on Linop.apply; who-may-call _apply",
+        "text": "Decides that the overloads build Compose/Add/Multiply nodes in matrix order, that the five combinators act as the block-matrix expression of three symbolic "
+                "children (composition right-to-left, sums, splits at the stored indices for every axis option), that the stacking helpers return the summed shape and running-sum "
+                "split indices for positive and negative axes and reject mismatching ranks/sizes, that every constructor validates operands before building, and that every "
+                "application passes both shape guards, which raise on any differing dimension. Symbolic children and sizes cover all inputs.",
+        "design_ref": "DESIGN.md section 4 C03",
+        "note": "Unrolling uses three operands of rank 2 (the loops are uniform in the operand count and rank; this is the stated abstraction). Children are opaque linear maps. "
+                "Dense-matrix equality itself is not evaluated.",
+    },
     "C04": {
         "engine": "E4 symbolic Linop algebra",
         "category": "other",
